@@ -131,6 +131,30 @@ class CodeGenerator:
             dv.address = label.name
             output_stream.emit(DebugData(dv))
 
+    def split_phi_edges(self, ir_function):
+        """Give each edge from a block with several successors to a block
+        with phi nodes a block of its own.
+
+        The copies for the phi nodes of a successor are placed at the end of
+        the block. Without the extra block they are also executed when
+        another successor is taken, where the old value of the phi can still
+        be in use (for example the value of a loop variable after the loop).
+        """
+        edge_nr = 0
+        for block in list(ir_function):
+            successors = block.successors
+            if len(successors) < 2:
+                continue
+            for successor in successors:
+                if not successor.phis:
+                    continue
+                edge_nr += 1
+                edge_block = ir.Block(f"{ir_function.name}_phi_edge_{edge_nr}")
+                ir_function.add_block(edge_block)
+                edge_block.add_instruction(ir.Jump(successor))
+                block.change_target(successor, edge_block)
+                successor.replace_incoming(block, [edge_block])
+
     def generate_function(self, ir_function, output_stream, debug=False):
         """Generate code for one function into a frame"""
         self.logger.info(
@@ -154,6 +178,8 @@ class CodeGenerator:
                 _, block = split_block(
                     block, pos=max_block_len, newname=newname
                 )
+
+        self.split_phi_edges(ir_function)
 
         self._mark_global(output_stream, ir_function)
         output_stream.emit(SetSymbolType(ir_function.name, "func"))
